@@ -253,8 +253,11 @@ def run(R):
             if R.nshards > 1 and ci % R.nshards != R.shard:
                 continue
             cls = getattr(mods[LIBCLS[name][0]], LIBCLS[name][1])
-            for k in range(per):
-                v, w = S.fitting_value(g, name, cname)
+            # first every combination of the structural decisions near the top (optional fields present/absent, alternatives of the direct sub-fields), then random values
+            systematic = list(S.enum_values(g, name, cname, 120 if quick else 1500))
+            R.count('structural_combinations', len(systematic))
+            for k in range(len(systematic) + per):
+                v, w = systematic[k] if k < len(systematic) else S.fitting_value(g, name, cname)
                 if v is None:
                     R.count('value_does_not_fit_skipped')
                     continue
@@ -277,6 +280,7 @@ def run(R):
     if R.nshards == 1:
         R.floor('constructors_covered', 80, 'set')
     R.floor('fields_compared', 3000)
+    R.floor('structural_combinations', 300)
     R.floor('sentinel_checks', 200)
     R.floor('blockinfo_cases', 16)
     if R.nshards == 1:
